@@ -27,14 +27,22 @@ func ctxKey(r *OpResult) string {
 
 func opKey(r *OpResult) string { return fmt.Sprintf("task %d op %d %s", r.Task, r.Index, r.Op) }
 
-func walkDesc(d *Desc, ctx, occ, op string, out *[]Obs) {
+func walkDesc(d *Desc, ctx, occ, op string, out *[]Obs) { walkDescNamed(d, ctx, occ, op, "", out) }
+
+// walkDescNamed: topName names the service when the object itself carries no name (a bare value
+// service fetched at top level).
+func walkDescNamed(d *Desc, ctx, occ, op, topName string, out *[]Obs) {
 	if d == nil {
 		return
 	}
 	self := occ
 	switch d.Kind {
 	case "node":
-		*out = append(*out, Obs{Svc: d.Svc, ID: d.ID, Occ: occ, Ctx: ctx, Op: op})
+		svc := d.Svc
+		if svc == "" {
+			svc = topName
+		}
+		*out = append(*out, Obs{Svc: svc, ID: d.ID, Occ: occ, Ctx: ctx, Op: op})
 		self = fmt.Sprintf("#%d", d.ID)
 	case "val":
 		self = occ + "/val"
@@ -65,13 +73,24 @@ func walkDesc(d *Desc, ctx, occ, op string, out *[]Obs) {
 }
 
 // Observe collects every instance observation of a history.
-func Observe(results []*OpResult) []Obs {
+func Observe(cfg *gen.Cfg, results []*OpResult) []Obs {
 	var out []Obs
 	for _, r := range results {
 		if r.Err != "" || r.Panic != "" || r.Val == nil {
 			continue
 		}
-		walkDesc(r.Val, ctxKey(r), "top:"+opKey(r), opKey(r), &out)
+		top := ""
+		switch r.Op.Kind {
+		case "Get", "GetCtx":
+			top = r.Op.Name
+		case "Getter", "GetterCtx", "MustGetter", "MustGetterCtx":
+			for _, s := range cfg.Services {
+				if s.Getter == r.Op.Name {
+					top = s.Name
+				}
+			}
+		}
+		walkDescNamed(r.Val, ctxKey(r), "top:"+opKey(r), opKey(r), top, &out)
 	}
 	return out
 }
@@ -157,5 +176,33 @@ func historyString(results []*OpResult) string {
 		}
 		fmt.Fprintf(&sb, "  [%d..%d] task %d op %d %s -> %s\n", r.Invoke, r.Return, r.Task, r.Index, r.Op, res)
 	}
+	return sb.String()
+}
+
+// historyDigestString is historyString without the absolute sequence stamps (they continue
+// across the runs of one process), keeping order and outcomes.
+func historyDigestString(results []*OpResult) string {
+	var sb strings.Builder
+	var base int64
+	if len(results) > 0 {
+		base = results[0].Invoke
+	}
+	for _, r := range results {
+		fmt.Fprintf(&sb, "%d..%d t%d.%d %s err=%q panic=%q val=%v\n", r.Invoke-base, r.Return-base, r.Task, r.Index, r.Op, r.Err, r.Panic, descDigest(r.Val))
+	}
+	return sb.String()
+}
+
+func descDigest(d *Desc) string {
+	if d == nil {
+		return "-"
+	}
+	var sb strings.Builder
+	fmt.Fprintf(&sb, "%s#%d:%s:%s(", d.Kind, d.ID, d.Svc, d.V)
+	for _, c := range d.Deps {
+		sb.WriteString(descDigest(c))
+		sb.WriteString(",")
+	}
+	sb.WriteString(")")
 	return sb.String()
 }
